@@ -100,6 +100,7 @@ func genExchange(t *rapid.T, lc labCfg) exchangeCase {
 	r.BarrierAfter = -1
 	r.Status = rapid.SampledFrom(statuses).Draw(t, "status")
 	r.Interim = rapid.IntRange(0, 9).Draw(t, "interim") == 0
+	r.InterimCode = rapid.SampledFrom([]int{103, 103, 100, 102}).Draw(t, "interim_code")
 	hl, labels = pickHeaders(t, respHeaderPool, 6, "resphdr")
 	r.Header = hl
 	ec.labels = append(ec.labels, labels...)
@@ -393,14 +394,18 @@ func judgeSeen(lc labCfg, req lab.RawRequest, script lab.RespScript, seen *lab.S
 	}
 	// ---------------- response side ----------------
 	if script.Interim {
+		code := script.InterimCode
+		if code == 0 {
+			code = 103
+		}
 		found := false
 		for _, s := range out.Interim {
-			if s == 103 {
+			if s == code {
 				found = true
 			}
 		}
 		if !found {
-			return fmt.Sprintf("backend sent interim 103 before the final response; client saw interim responses %v", out.Interim)
+			return fmt.Sprintf("backend sent interim %d before the final response; client saw interim responses %v", code, out.Interim)
 		}
 	} else if len(out.Interim) > 0 {
 		return fmt.Sprintf("client saw interim responses %v the backend never sent", out.Interim)
